@@ -135,7 +135,7 @@ def compare_result(ctx, c, fn, got, want, what):
                   (f" (+{len(problems) - 4} more)" if len(problems) > 4 else ""), fn, wrong_blades=len(problems))
 
 
-@rule("C02.table", props=["C02", "C14"], min_instances=6, mutants=[
+@rule("C02.table", props=["C02", "C14", "C01"], min_instances=6, mutants=[
     ("overwrite instead of accumulate", ("codegen", "                res[key_out] += termstr", "                res[key_out] = termstr")),
     ("polarity sign < 0 kept positive", ("codegen", "termstr = vx * vy if sign > 0 else (- vx * vy)", "termstr = vx * vy if sign != 0 else (- vx * vy)")),
     ("accumulate on kx | ky", ("codegen", "def codegen_product(x, y, filter_func=None, sign_func=None, keyout_func=operator.xor):", "def codegen_product(x, y, filter_func=None, sign_func=None, keyout_func=operator.or_):")),
